@@ -35,7 +35,7 @@ PROPS = {
             "reserved words are never label names; function words are (followed by an operator, comma or closing token)",
         ],
         "quick": [rapid("TestC05", 4000)],
-        "thorough": [rapid("TestC05", 20000, shards=16, timeout=2400), fuzz("FuzzC05", 120)],
+        "thorough": [rapid("TestC05", 150000, shards=16, timeout=3000), fuzz("FuzzC05", 180)],
     },
     "C07": {
         "rule": "cases: 1-6 records with generated label sets (missing labels, mixed-case and padded values) and lines, x one "
@@ -53,7 +53,7 @@ PROPS = {
             "plain chunks contain no ESC, U+009B or BEL; a label is never in both the name list and the matcher list of one drop/keep",
         ],
         "quick": [rapid("TestC07", 2000)],
-        "thorough": [rapid("TestC07", 8000, shards=16, timeout=2400)],
+        "thorough": [rapid("TestC07", 100000, shards=16, timeout=3000)],
     },
     "C06": {
         "rule": "cases: 1-6 records whose lines are rendered from generated structure - JSON objects (strings with escapes/Unicode, "
@@ -73,7 +73,7 @@ PROPS = {
             "JSON path expressions never select a null",
         ],
         "quick": [rapid("TestC06", 2000)],
-        "thorough": [rapid("TestC06", 8000, shards=16, timeout=2400)],
+        "thorough": [rapid("TestC06", 100000, shards=16, timeout=3000)],
     },
     "C18": {
         "rule": "cases: 1-5 fake containers with generated logs and Docker labels x a log / metric / binary-operation query; every "
@@ -111,7 +111,7 @@ PROPS = {
             "with a limit a fault behind the limit may legitimately stay unreached: only the close accounting is checked there",
         ],
         "quick": [rapid("TestC14", 1000)],
-        "thorough": [rapid("TestC14", 4000, shards=16, timeout=2400)],
+        "thorough": [rapid("TestC14", 40000, shards=16, timeout=3000)],
     },
     "C02": {
         "rule": "cases: inventories of 0-7 fake containers (names with/without leading slash, empty Names, aliases, images, states, "
@@ -130,7 +130,7 @@ PROPS = {
             "reserved words are not used as label names",
         ],
         "quick": [rapid("TestC02", 1200)],
-        "thorough": [rapid("TestC02", 5000, shards=16, timeout=2400)],
+        "thorough": [rapid("TestC02", 60000, shards=16, timeout=3000)],
     },
     "C12": {
         "rule": "cases: two vectors over the same generated records (same expression, same grouping over another function, "
@@ -144,7 +144,7 @@ PROPS = {
         "assumptions": ["the bool modifier and on/ignoring/group_* are not generated (outside the statement)",
                         "comparison operators and % are only generated over integer-valued sides (counts, byte counts, their sum/max/count): they turn a last-bit floating-point difference of an order-dependent sum into 0/1"],
         "quick": [rapid("TestC12", 1500)],
-        "thorough": [rapid("TestC12", 6000, shards=16, timeout=2400)],
+        "thorough": [rapid("TestC12", 60000, shards=16, timeout=3000)],
     },
     "C13": {
         "rule": "cases: chains of 2-5 vector(v) operands (operands may be parenthesised sub-chains, depth <=2) joined by any of the "
@@ -158,7 +158,7 @@ PROPS = {
                 "^ chain, or parentheses; distinct by case hash",
         "assumptions": ["operands are vector(v) with non-negative v (the grammar has no signed argument there); literal-literal operations are unsupported by the engine and not generated"],
         "quick": [rapid("TestC13", 3000)],
-        "thorough": [rapid("TestC13", 20000, shards=16, timeout=2400)],
+        "thorough": [rapid("TestC13", 200000, shards=16, timeout=3000)],
     },
     "C11": {
         "rule": "cases: 2-8 series templates with varied values (counts, byte sums, unwrapped sums incl. negatives and fractions), "
@@ -174,7 +174,7 @@ PROPS = {
             "no NaN inputs to aggregations; population variance; float tolerance 1e-9 relative",
         ],
         "quick": [rapid("TestC11", 1200)],
-        "thorough": [rapid("TestC11", 5000, shards=16, timeout=2400)],
+        "thorough": [rapid("TestC11", 60000, shards=16, timeout=3000)],
     },
     "C09": {
         "rule": "cases: up to 40 records on a 250ms lattice built from 1-4 series templates (ties, points exactly on window "
@@ -192,7 +192,7 @@ PROPS = {
             "no distinct stage inside metric queries (its state would depend on how much the storage returns)",
         ],
         "quick": [rapid("TestC09", 700)],
-        "thorough": [rapid("TestC09", 3000, shards=16, timeout=2400)],
+        "thorough": [rapid("TestC09", 25000, shards=16, timeout=3000)],
     },
     "C10": {
         "rule": "cases: records whose label names/values come from a pool of mutual prefixes/concatenations ({a,b,ab,ba} x "
@@ -204,7 +204,7 @@ PROPS = {
                 "equal concatenations; distinct by case hash",
         "assumptions": ["64-bit hash collisions between unrelated label sets are not reachable by search; only structural collisions are"],
         "quick": [rapid("TestC10", 800)],
-        "thorough": [rapid("TestC10", 3000, shards=16, timeout=2400)],
+        "thorough": [rapid("TestC10", 40000, shards=16, timeout=3000)],
     },
     "C17": {
         "rule": "cases: queries from three sources - grammar-derived over the whole grammar (40%), their token-level mutations "
@@ -223,7 +223,7 @@ PROPS = {
             "template arguments are small (sprig's repeat/indent allocate what they are asked to)",
         ],
         "quick": [rapid("TestC17", 4000)],
-        "thorough": [rapid("TestC17", 15000, shards=16, timeout=2400), fuzz("FuzzC17", 180)],
+        "thorough": [rapid("TestC17", 100000, shards=16, timeout=3000), fuzz("FuzzC17", 300)],
     },
     "C19": {
         "rule": "cases: generated records with unique timestamps (some lines and label values are arbitrary bytes) x a prefix "
@@ -238,7 +238,7 @@ PROPS = {
             "ip() filters are not part of the negation pairs of the statement",
         ],
         "quick": [rapid("TestC19", 1500)],
-        "thorough": [rapid("TestC19", 6000, shards=16, timeout=2400)],
+        "thorough": [rapid("TestC19", 40000, shards=16, timeout=3000)],
     },
     "C01": {
         "rule": "cases: 0-25 generated records (plain / JSON / logfmt / delimiter-separated lines built from known structure, typed "
@@ -258,7 +258,7 @@ PROPS = {
             "the mock storage applies offloaded matchers with the reference semantics (storage contract)",
         ],
         "quick": [rapid("TestC01", 1500)],
-        "thorough": [rapid("TestC01", 6000, shards=16, timeout=2400)],
+        "thorough": [rapid("TestC01", 100000, shards=16, timeout=3000)],
     },
     "C08": {
         "rule": "cases: C01's generator with rewriting stages enabled, label values that differ only in quoting-sensitive characters "
@@ -269,7 +269,7 @@ PROPS = {
                 ">=2 streams with a quoting-sensitive label value; distinct by case hash",
         "assumptions": ["records are handed to the engine in time order (storage contract)", "see C01 for the query generator's preconditions"],
         "quick": [rapid("TestC08", 1500)],
-        "thorough": [rapid("TestC08", 6000, shards=16, timeout=2400)],
+        "thorough": [rapid("TestC08", 100000, shards=16, timeout=3000)],
     },
     "C16": {
         "rule": "cases: a generated clock and all 16 present/absent combinations of --start --end --since --step; instants "
@@ -287,8 +287,8 @@ PROPS = {
         ],
         "replay_test": "TestC16",
         "quick": [rapid("TestC16", 5000, binary="cmdmain"), rapid("TestC16E2E", 300, binary="cmdmain", shard_base=100)],
-        "thorough": [rapid("TestC16", 40000, shards=8, binary="cmdmain", timeout=1800),
-                     rapid("TestC16E2E", 2500, binary="cmdmain", shard_base=100, timeout=1800)],
+        "thorough": [rapid("TestC16", 200000, shards=16, binary="cmdmain", timeout=3000),
+                     rapid("TestC16E2E", 4000, shards=4, binary="cmdmain", shard_base=100, timeout=3000)],
     },
     "C15": {
         "rule": "cases: generated stream results (0-40 containers - well past the palette of 8 -, 0-52 entries, several streams per "
@@ -303,7 +303,7 @@ PROPS = {
             "the time zone of the rendered timestamp is not stated: any RFC3339 text denoting exactly the entry's instant is accepted",
         ],
         "quick": [rapid("TestC15", 2500, binary="cmdmain")],
-        "thorough": [rapid("TestC15", 12000, shards=8, binary="cmdmain", timeout=1800)],
+        "thorough": [rapid("TestC15", 60000, shards=16, binary="cmdmain", timeout=3000)],
     },
     "C04": {
         "rule": "cases: 0-6 fake containers with generated logs (empty, singletons, long, ties inside and across containers, "
@@ -317,7 +317,7 @@ PROPS = {
             "time order is only required when every container's own log is time-ordered",
         ],
         "quick": [rapid("TestC04", 700)],
-        "thorough": [rapid("TestC04", 3000, shards=16, timeout=1800)],
+        "thorough": [rapid("TestC04", 12000, shards=16, timeout=3000)],
     },
     "C03": {
         "rule": "cases: generated record sequences (0-40 records, arbitrary message bytes, ns timestamps 2001-2200 in three "
@@ -333,7 +333,7 @@ PROPS = {
             "a transport (non-EOF) read error is expected to surface as an error wherever it occurs",
         ],
         "quick": [rapid("TestC03", 2500)],
-        "thorough": [rapid("TestC03", 12000, shards=16, timeout=1800), fuzz("FuzzC03", 120)],
+        "thorough": [rapid("TestC03", 25000, shards=16, timeout=3000), fuzz("FuzzC03", 180)],
     },
     "C20": {
         "rule": "cases: every string of length 1..5 over {a,Z,0,9,_,.,-,/,space,é,世,0xFF,0xC3,U+0663 ARABIC-INDIC DIGIT THREE} (exhaustive) plus "
@@ -346,7 +346,7 @@ PROPS = {
             "two keys of one container with the same image are not generated (which one wins is unspecified)",
         ],
         "quick": [rapid("TestC20", 3000)],
-        "thorough": [rapid("TestC20", 20000, shards=8, env={"VERIF_C20_MAXLEN": "6"}, timeout=1800),
-                     fuzz("FuzzC20", 60)],
+        "thorough": [rapid("TestC20", 100000, shards=8, env={"VERIF_C20_MAXLEN": "6"}, timeout=3000),
+                     fuzz("FuzzC20", 120)],
     },
 }
